@@ -898,3 +898,21 @@ pub fn keyword_prefixes(spec: &mut Spec, tape: &[u32], extra: &[char]) {
         .collect();
     do_rules(&mut top, &mut t);
 }
+
+/// A bracket set of `n` individually listed characters (no ranges), e.g. operator characters.
+pub fn many_char_set(tape: &[u32], n: usize) -> Re {
+    let mut t = Tape::new(tape);
+    let pool: Vec<char> = "+-*/%<>=!&|^~?:.,;@#$_".chars().chain('A'..='Z').chain("αβγδεζηθ→←↑↓".chars()).collect();
+    let mut items: Vec<SetItem> = vec![];
+    let mut used: Vec<char> = vec![];
+    let mut k = t.next(pool.len() as u32) as usize;
+    while items.len() < n.min(pool.len()) {
+        let c = pool[k % pool.len()];
+        k += 1 + t.next(3) as usize;
+        if !used.contains(&c) {
+            used.push(c);
+            items.push(SetItem::C(c));
+        }
+    }
+    Re::Set(items)
+}
